@@ -24,6 +24,7 @@ STORE_TRUSTED = ["model of nodePoints/edgePoints/updateHash/up and the two write
 STORE_ASSUME = ['SQLite, database/sql and NATS request/reply behave as documented (a write is visible to reads issued after its reply)', 'node ids are NATS subject tokens without quotes; strings are valid UTF-8 without NUL; times are non-zero and within int64 ns; edge tombstone points carry 0, 1 or 2']
 
 AREAS["C01"] = {
+    "ready": False,
     "area": "c01", "id": 1, "coq": ["Base", "Store", "Properties/C01.v"], "rule": STORE_RULE, "trusted": STORE_TRUSTED, "assumptions": STORE_ASSUME,
     "level_text": "proof: C01 theorems (newest point per identity wins for every history, one row per identity, order/batching/duplication independence) "
                   "about the executable model of nodePoints/edgePoints; the model is replayed against a real instance on generated histories and must reproduce every dump; "
@@ -31,24 +32,54 @@ AREAS["C01"] = {
     "level_note": "trusted: Coq kernel, extraction, OCaml driver, Go harness; modelled not verified: SQLite, NATS, protobuf transport; theorems assume distinct times per identity and no NaN (refused, C05)",
 }
 AREAS["C03"] = {
+    "ready": False,
     "area": "c03", "id": 3, "coq": ["Base", "Store", "Properties/C03.v"], "rule": STORE_RULE, "trusted": STORE_TRUSTED, "assumptions": STORE_ASSUME,
     "level_text": "proof: the incremental XOR-Merkle update of the model preserves the from-scratch hash equation on every edge for every history and every acyclic graph shape "
                   "(path-parity argument, fuel adequacy); the model's hashes must equal the instance's after every request, and every dumped hash is recomputed independently from the dump",
     "level_note": "trusted as C01; CRC-32 collisions are outside the claim (delta != 0 is a hypothesis of the propagation clause); a change below an even number of paths cancels by the XOR definition itself (known finding K2)",
 }
 AREAS["C05"] = {
+    "ready": False,
     "area": "c05", "id": 5, "coq": ["Base", "Store", "Properties/C05.v"], "rule": STORE_RULE, "trusted": STORE_TRUSTED, "assumptions": STORE_ASSUME,
     "level_text": "proof: in the model every request of a refused class is answered with an error, an error reply leaves state and rebroadcast stream untouched, reachable graphs stay acyclic "
                   "so the upward recursions terminate; replies, dumps and up.> traffic of a real instance are compared with the model after every request and the refusal/no-trace specification is evaluated on them",
     "level_note": "trusted as C01; a request that kills or wedges the instance is observed through worker processes with timeouts",
 }
 AREAS["C06"] = {
+    "ready": False,
     "area": "c06", "id": 6, "coq": ["Base", "Store", "Properties/C06.v"], "rule": STORE_RULE, "trusted": STORE_TRUSTED, "assumptions": STORE_ASSUME,
     "level_text": "proof: the set of subjects the recursive publishers of the model publish on is exactly the reflexive-transitive upward closure (live edges for node points, all edges for edge points) "
                   "for every acyclic graph; everything a real instance publishes on up.> is compared with the model and with the closure computed from the dump",
     "level_note": "trusted as C01; NATS delivery order per connection is assumed to collect the messages published before a reply",
 }
 
+AREAS["C13"] = {
+        "area": "c13", "id": 13, "coq": ["Base", "Rule", "Properties/C13.v"],
+        "rule": "seeded generator: rule with 1-4 conditions (point-value number/onOff/text with every operator, also unknown operators "
+                "and value types; node/type/key filters empty or set; schedule conditions incl. unparsable ones; unknown condition "
+                "types), 0-3 set-value actions and inactive-actions (targets incl. the rule itself, missing node/type, unknown action), "
+                "stale active/error fields; history of 1-10 batches of 1-5 points from listening and foreign nodes, values equal to / one "
+                "ulp beside / across each threshold, NaN, +-0, +-Inf, texts equal to / containing / a prefix of the condition text, trigger "
+                "points within 1 s and 1 ns of schedule boundaries; plus 300 float comparison pairs (thorough: also the full grid value type x operator x filter combination x value relation for one condition and one point, and all ordered pairs of special floats); a history is non-trivial when some "
+                "condition or the rule changes state in it; distinct by SHA-1 of (mode, rule, batches)",
+        "trusted": ["model of ruleProcessPoints / processError / ruleRunActions / ruleInactiveActions / the run closure: "
+                    "coq/theories/Rule/Model.v (hand-written, tied by this run's correspondence)",
+                    "hook client/verif_rule.go (build tag verif, add-only): VerifRuleRun feeds one batch into the real Run loop, "
+                    "VerifRuleProcess calls ruleProcessPoints, VerifRuleScheduleActive evaluates a condition's schedule",
+                    "float64 comparison on bit patterns (f_lt, f_eq, f_nan in Rule/Model.v), compared with Go's operators on every run"],
+        "level_text": "proof: C13_conditions, C13_conditions_history, C13_rule_active, C13_actions_once are Coq theorems about the "
+                      "executable model of the rule client for every rule, window function and history; the model is run against "
+                      "the real RuleClient (Run loop and ruleProcessPoints, in-process NATS server, all sent points captured) on "
+                      ">1000 generated histories per run and must agree on every configuration and every point sent",
+        "level_note": "trusted: Coq kernel, extraction, OCaml driver, the Go harness, the in-process NATS server used to capture "
+                      "points; the schedule window test is a parameter (the real activeForTime result is supplied per trigger point; "
+                      "its correctness is C14); notify and playAudio actions and the empty-batch (configuration change) path of run "
+                      "are outside the model",
+        "assumptions": ["publishing a point never fails (connected NATS client, valid UTF-8 strings, node ids usable as subject tokens)",
+                        "one batch is handled at a time (the Run loop is single-threaded)",
+                        "actions are of the set-value kind or unknown; notify / playAudio are not modelled"],
+    }
+
 WIP = "not yet built in this round; the design (DESIGN.md section 6) claims it and the check is being added"
 NOT_CLAIMED = {pid: WIP for pid in ["C%02d" % i for i in range(1, 21)] if pid not in AREAS}
-HOOK_COMMITS = []
+HOOK_COMMITS = ["6f869d9"]
